@@ -408,6 +408,29 @@ impl VcfB {
         }
         Ok((VcfB { data, header }, scan))
     }
+
+    /// CSI over the bgzipped VCF (noodles has no fs function for it): the public `Indexer<BinnedIndex>` with a tabix-style
+    /// header, driven the way `vcf::fs::index` drives the tabix indexer (names in order of first appearance, one
+    /// `[vpos before, vpos after)` chunk per record, `variant_start` / `variant_end`).
+    fn csi(&self, min_shift: u8, depth: u8) -> io::Result<csi::Index> {
+        let mut r = vcf::io::Reader::new(bgzf::io::Reader::new(&self.data[..]));
+        let header = r.read_header()?;
+        let mut names = csi::binning_index::index::header::ReferenceSequenceNames::new();
+        let mut ixr = Indexer::<BinnedIndex>::new(min_shift, depth);
+        let mut rec = vcf::Record::default();
+        let mut start = r.get_ref().virtual_position();
+        while r.read_record(&mut rec)? != 0 {
+            let end = r.get_ref().virtual_position();
+            let (id, _) = names.insert_full(rec.reference_sequence_name().into());
+            let s = rec.variant_start().transpose()?.ok_or_else(|| io::Error::new(io::ErrorKind::InvalidData, "missing position"))?;
+            let e = rec.variant_end(&header)?;
+            ixr.add_record(Some((id, s, e, true)), Chunk::new(start, end))?;
+            start = end;
+        }
+        let n = names.len();
+        let h = csi::binning_index::index::header::Builder::vcf().set_reference_sequence_names(names).build();
+        Ok(ixr.set_header(h).build(n))
+    }
 }
 
 fn vcf_id(r: &vcf::Record) -> String {
@@ -1209,11 +1232,15 @@ fn case_json(c: &Case) -> Value {
 }
 
 const CORPUS: [&str; 4] = ["long-in-parent-bin", "long-in-grandparent-bin", "short-in-later-bin", "boundary-records"];
+const CORPUS_VARIANTS_ONLY: [&str; 2] = ["end-with-any-alt", "svlen-len-4.5"];
 
 fn gen_cases(ctx: &Ctx) -> Vec<Case> {
     let mut v = Vec::new();
     for c in CORPUS {
         v.push(Case::Aln { seed: 0, size: 0, coord_max: (1 << 29) - 1, corpus: Some(c) });
+        v.push(Case::Var { seed: 0, size: 0, coord_max: (1 << 29) - 1, corpus: Some(c) });
+    }
+    for c in CORPUS_VARIANTS_ONLY {
         v.push(Case::Var { seed: 0, size: 0, coord_max: (1 << 29) - 1, corpus: Some(c) });
     }
     let n = ctx.budget("sets", 400, 10000);
@@ -1273,16 +1300,50 @@ fn corpus_var(name: &str) -> VarSet {
         alt: if end.is_some() { "<DEL>".into() } else { "T".into() },
         end,
         svlen: None,
+        svlen_at: 0,
+        len: None,
         pad: 0,
     };
+    // span definer and ALT column chosen independently
+    let mka = |k: usize, pos: usize, ref_len: usize, end: Option<usize>, alt: &str| VarRec { alt: alt.into(), ..mk(k, pos, ref_len, end) };
+    let mut minor = 3;
+    let mut sample = false;
     let recs = match name {
         "long-in-parent-bin" => vec![mk(0, 11, 1, Some(20_010)), mk(1, 20, 1, None), mk(2, 300, 3, None), mk(3, 17_000, 1, None)],
         "long-in-grandparent-bin" => vec![mk(0, 11, 1, Some(200_010)), mk(1, 20, 1, None), mk(2, 300, 3, None)],
         "short-in-later-bin" => vec![mk(0, 20_000, 5, None), mk(1, 30_000, 1, Some(49_999)), mk(2, 60_000, 1, None)],
+        // INFO/END with every kind of ALT column (fileformat 4.3): gVCF reference block with ALT '.', deletion given with plain
+        // bases + END, <NON_REF>, <*>, breakend, mixed lists with the symbolic allele first / second; tails in later 16 kb /
+        // 128 kb / 1 Mb windows. No short record lies inside the tails that are queried, so the binned pruning defect stays out.
+        "end-with-any-alt" => vec![
+            mka(0, 1_000, 1, Some(100_000), "."),
+            mka(1, 2_000, 4, Some(140_000), "A"),
+            mka(2, 3_000, 1, Some(1_200_000), "<NON_REF>"),
+            mka(3, 4_000, 2, Some(150_000), "T,<DEL>"),
+            mka(4, 5_000, 1, Some(60_000), "A]chr0:12345]"),
+            mka(5, 6_000, 1, Some(70_000), "<*>"),
+            mka(6, 7_000, 1, Some(80_000), "<DEL>,T"),
+            mka(7, 8_000, 3, Some(90_000), "TAC"),
+            mka(8, 2_000_000, 1, None, "."),
+            mka(9, 2_100_000, 20, None, "G,<NON_REF>"),
+        ],
+        // fileformat 4.5: SVLEN of the one symbolic SV allele of a mixed list (missing for the others), FORMAT/LEN of a <*> block
+        "svlen-len-4.5" => {
+            minor = 5;
+            sample = true;
+            vec![
+                VarRec { alt: "T,<DEL>".into(), svlen: Some(99_000), svlen_at: 1, ..mk(0, 1_000, 1, None) },
+                VarRec { alt: "<*>".into(), len: Some(138_000), ..mk(1, 2_000, 1, None) },
+                VarRec { alt: "<DUP>".into(), svlen: Some(1_100_000), svlen_at: 0, ..mk(2, 3_000, 1, None) },
+                VarRec { alt: "TAC,G,<DEL>".into(), svlen: Some(50_000), svlen_at: 2, ..mk(3, 4_000, 3, None) },
+                VarRec { alt: "T,<*>".into(), len: Some(30_000), ..mk(4, 5_000, 1, None) },
+                VarRec { alt: ".".into(), ..mk(5, 2_000_000, 7, None) },
+            ]
+        }
         _ => vec![mk(0, 1, 1, None), mk(1, 16_384, 1, None), mk(2, 16_384, 2, None), mk(3, 16_385, 1, None), mk(4, 131_072, 1, None), mk(5, 131_073, 1, None), mk(6, (1 << 29) - 1, 1, None)],
     };
     let n = recs.len();
-    VarSet { minor: 3, contigs: vec!["chr0".into(), "chr1".into()], recs, flush_after: vec![false; n], level: 1 }
+    VarSet { minor, contigs: vec!["chr0".into(), "chr1".into()], recs, flush_after: vec![false; n], level: 1, sample }
 }
 
 fn corpus_regions(name: &str) -> Vec<Reg> {
@@ -1290,6 +1351,26 @@ fn corpus_regions(name: &str) -> Vec<Reg> {
     match name {
         "long-in-parent-bin" | "long-in-grandparent-bin" => vec![r(20, 119), r(300, 300), r(10, 10), r(11, 11), r(1, 1 << 20)],
         "short-in-later-bin" => vec![r(100, 25_000), r(20_000, 20_000), r(1, 70_000)],
+        // regions that touch the long records only in their tails
+        "end-with-any-alt" => vec![
+            r(50_000, 50_010),
+            r(100_000, 100_000),
+            r(100_001, 100_001),
+            r(139_990, 140_000),
+            r(140_001, 140_010),
+            r(1_150_000, 1_150_010),
+            r(1_200_000, 1_200_000),
+            r(16_385, 16_385),
+            r(131_073, 131_073),
+            r(1_048_577, 1_048_577),
+            r(65_000, 65_000),
+            r(85_000, 95_000),
+            r(1_000, 1_000),
+            r(2_000_000, 2_200_000),
+            Reg { rid: 0, s: Some(500_000), e: None, class: "corpus" },
+            Reg { rid: 0, s: None, e: None, class: "corpus" },
+        ],
+        "svlen-len-4.5" => vec![r(50_000, 50_010), r(99_990, 99_990), r(139_000, 139_990), r(200_000, 200_000), r(1_100_000, 1_100_900), r(16_385, 16_385), r(34_000, 34_990), r(53_000, 53_990), r(2_000_003, 2_000_003), Reg { rid: 0, s: None, e: None, class: "corpus" }],
         _ => vec![
             r(1, 1),
             r(16_384, 16_384),
@@ -1497,6 +1578,20 @@ fn run_var(ctx: &Ctx, idx: u64, seed: u64, size: usize, coord_max: usize, corpus
         None => gen_regions(&mut rng, &items, set.contigs.len(), coord_max, 100),
     };
     count_level_crossings(&mut o, &items);
+    for r in &set.recs {
+        let definer = if r.end.is_some() {
+            "END"
+        } else if r.svlen.is_some() {
+            "SVLEN"
+        } else if r.len.is_some() {
+            "LEN"
+        } else {
+            "REF"
+        };
+        let (s0, e0, _) = set.span(r);
+        let long = if (s0 - 1) >> 14 != (e0 - 1) >> 14 { "crosses-16kb" } else { "within-16kb" };
+        o.count(&format!("variant_records[span-by-{definer},alt={},{long}]", layouts::alt_class(&r.alt)), 1);
+    }
     let mut fps = vec![fnv1a(format!("var|{shape}").as_bytes())];
     let mut total_regions = 0;
     let ident = |r: usize| Some(r);
@@ -1587,6 +1682,31 @@ fn run_var(ctx: &Ctx, idx: u64, seed: u64, size: usize, coord_max: usize, corpus
                     Ok(Err(e)) => o.count(&format!("indexing_refused[vcf::fs::index:{}]", guard::normalise_message(&e.to_string())), 1),
                     Err(p) => o.violation(format!("indexing:vcf::fs::index-panic:{}", p.sig), p.message),
                 }
+                // VCF.gz + CSI (default and one other geometry)
+                let other = other_geometry(&mut rng, coord_max);
+                for (k, (ms, d)) in [(14u8, 5u8), other].into_iter().enumerate() {
+                    match guard::catch(|| b.csi(ms, d)) {
+                        Ok(Ok(cx)) => {
+                            let cnames: Vec<String> = cx.header().map(|h| h.reference_sequence_names().iter().map(|n| n.to_string()).collect()).unwrap_or_default();
+                            let contigs = set.contigs.clone();
+                            let map = move |r: usize| cnames.iter().position(|n| n == &contigs[r]);
+                            let lab = Labels { ix: "csi", via: "memory", geometry: (ms, d), ref_names: &set.contigs, index_rid: &map, indexed: false, base_order: 5 + k as u64 };
+                            check_index(&b, &items, &scan, &cx, &lab, &regions, &mut rng, &mut o, &mut st, &mut fps);
+                            let ip = ctx.work.join(format!("c04-{idx}.{k}.vcf.gz.csi"));
+                            match guard::catch(|| csi::fs::write(&ip, &cx).and_then(|_| csi::fs::read(&ip))) {
+                                Ok(Ok(cx2)) => {
+                                    let lab = Labels { via: "file", base_order: lab.base_order + 1, ..lab };
+                                    check_index(&b, &items, &scan, &cx2, &lab, &regions, &mut rng, &mut o, &mut st, &mut fps);
+                                    o.count("index_file_round_trips[csi]", 1);
+                                }
+                                Ok(Err(e)) => o.violation("index-file:csi:write-read-failed", format!("csi::fs::write + read failed: {e}")),
+                                Err(p) => o.violation(format!("index-file:csi:panic:{}", p.sig), p.message),
+                            }
+                        }
+                        Ok(Err(e)) => o.count(&format!("indexing_refused[vcf.gz+csi-indexer:{}]", guard::normalise_message(&e.to_string())), 1),
+                        Err(p) => o.violation(format!("indexing:vcf-csi-panic:{}", p.sig), p.message),
+                    }
+                }
                 finish_stats(&mut o, "vcf.gz", &st);
                 total_regions += st.regions;
             }
@@ -1616,7 +1736,7 @@ fn main() {
          filter over the generator's description; distinct = distinct (format, index, memory/file, default geometry?, region class, \
          answer size class 0/1/2/3+, min_offset>0) plus distinct set shapes; a fixed corpus (4 layouts x 2 formats) precedes the seeded part",
     );
-    rep.assumptions.push("oracle = generator description: SAM span = POS..POS+max(sum M/D/N/=/X,1)-1; VCF<4.5 span = POS..END if INFO/END else POS+len(REF)-1; VCF 4.5 SVLEN: both POS+SVLEN-1 and POS+SVLEN accepted as end (pairs separated by that base are not judged)".into());
+    rep.assumptions.push("oracle = generator description: SAM span = POS..POS+max(sum M/D/N/=/X,1)-1; VCF<4.5 span = POS..END if INFO/END else POS+len(REF)-1; VCF 4.5: max of REF length, SVLEN (both POS+SVLEN-1 and POS+SVLEN accepted as end; pairs separated by that base are not judged) and FORMAT/LEN (POS+LEN-1); the ALT column is never consulted (generated independently: missing, plain bases, symbolic, breakend, mixed lists)".into());
     rep.assumptions.push("a sequential read of each written file with the noodles reader must give back the written names in order, else the case is inconclusive (C05/C09/C10 territory)".into());
     rep.assumptions.push("query_unmapped may additionally yield placed unmapped reads (flagged 0x4): the statement only forbids records not flagged unmapped".into());
     rep.assumptions.push("a query that returns Err for a region on which the scan keeps nothing (e.g. tabix: contig without records is not in the index) is counted, not alarmed on".into());
